@@ -114,7 +114,11 @@ def comp_fn(name):
 def local_within(name, wl, wr):
     """is the named computation local within the declared window (the property's premise)?"""
     parts = name.split(":")
-    if parts[0] in ("gap", "pair0", "pair1"):
+    if parts[0] == "gap":
+        # Lean `overlap_whole_gap`: gap grouping is chunking independent for every gap <= 2 * look-ahead,
+        # whatever the look-back (sent_until is always a group cut)
+        return int(parts[1]) <= 2 * wr
+    if parts[0] in ("pair0", "pair1"):
         return int(parts[1]) <= min(wl, wr)
     return parts[0] != "batch"
 
@@ -472,7 +476,9 @@ def pick_comp(rng, wl, wr, groups=True):
     if r < 0.35 or not groups:
         return rng.choice(["count", "count", "sum", "ident"])
     if r < 0.75:
-        return f"gap:{rng.randint(0, m)}"
+        # mostly within min(wl, wr) (the property's wording), sometimes up to 2 * wr (what the theorem covers)
+        # and beyond (not local: agreement with the model only)
+        return f"gap:{rng.randint(0, m) if rng.random() < 0.7 else rng.randint(0, 2 * wr + 2)}"
     return f"{rng.choice(['pair0', 'pair1'])}:{rng.randint(0, m)}"
 
 
@@ -502,6 +508,17 @@ def malformed(rng, chunks):
     elif kind == "swap" and len(chunks) >= 2:
         chunks[i - 1], chunks[i] = chunks[i], chunks[i - 1]
     return chunks, kind
+
+
+EPOCH_T0 = 1_700_000_000_000_000_000
+
+
+def shifted(case, d):
+    """the same case with every chunk bound and row time moved by d"""
+    new = dict(case)
+    new["chunks"] = [[a + d, b + d, [[t + d, e + d, i] for t, e, i in rows]] for a, b, rows in case["chunks"]]
+    new["shift"] = d
+    return new
 
 
 def branch_of(case, out):
@@ -544,6 +561,7 @@ def run(ctx):
             for (wl, wr) in wins:
                 for comp in ("count", f"gap:{min(wl, wr)}"):
                     cases.append(dict(comps=[comp], wl=wl, wr=wr, chunks=chunks, valid=True))
+    pool = {"exhaustive": cases}
     ctx.correspond("iter/exhaustive", cases, impl_iter, op_iter, oracle_run, nontrivial=nontrivial, exhaustive=True,
                    rule=f"all disjoint runs of <= {max_n} rows on grid 0..{grid} x every law-abiding chunking of [0,{grid+1}) (+ zero-duration chunks) x windows {wins} x {{count, gap-grouping}}; non-trivial = >= 2 chunks and >= 2 rows",
                    branch=branch_of, in_hyp=lambda c, o: stream_ok(c["chunks"]))
@@ -554,6 +572,7 @@ def run(ctx):
         rows, chunks = run_case(rng)
         wl, wr = rand_window(rng)
         cases.append(dict(comps=[pick_comp(rng, wl, wr)], wl=wl, wr=wr, chunks=chunks, valid=True))
+    pool["single"] = cases
     ctx.correspond("iter/single", cases, impl_iter, op_iter, oracle_run, nontrivial=nontrivial,
                    rule="random disjoint runs (0..14 rows, rows up to 7x longer than the base length, gaps 0..24) x chunkings (every admissible cut with p in {.12,.4,.85}, zero-duration chunks, one giant chunk) x windows 0..12 symmetric / one-sided / asymmetric x {ident,count,sum,gap:g<=w,pair:g<=w}",
                    branch=branch_of, in_hyp=lambda c, o: stream_ok(c["chunks"]))
@@ -566,6 +585,7 @@ def run(ctx):
         wl, wr = rand_window(rng)
         comps = ["batch"] if rng.random() < 0.7 else ["batch", pick_comp(rng, wl, wr)]
         cases.append(dict(comps=comps, wl=wl, wr=wr, chunks=chunks, valid=True))
+    pool["batches"] = cases
     ctx.correspond("iter/batches", cases, impl_iter, op_iter, oracle_run, nontrivial=nontrivial,
                    rule="as iter/single / iter/multi with a computation whose output rows carry the first id and the length of the batch `compute` received: agreement = same prepended input cache in every call",
                    branch=branch_of, in_hyp=lambda c, o: stream_ok(c["chunks"]))
@@ -581,6 +601,7 @@ def run(ctx):
             g = rng.randint(0, min(wl, wr))
             comps[:2] = [f"pair0:{g}", f"pair1:{g}"]
         cases.append(dict(comps=comps, wl=wl, wr=wr, chunks=chunks, valid=True))
+    pool["multi"] = cases
     ctx.correspond("iter/multi", cases, impl_iter, op_iter, oracle_run, nontrivial=nontrivial,
                    rule="as iter/single with 2..3 outputs of a multi_output plugin (per-row and group-forming computations mixed, 25% the interlocking pair0/pair1)",
                    branch=branch_of, in_hyp=lambda c, o: stream_ok(c["chunks"]))
@@ -644,9 +665,31 @@ def run(ctx):
         multi = rng.random() < 0.35
         comps = [pick_comp(rng, wl, wr) for _ in range(2 if multi else 1)]
         cases.append(dict(comps=comps, wl=wl, wr=wr, chunks=chunks, valid=True, multi=multi, proc=procs[j % 2], lazy=rng.random() < 0.7))
+    pool["context"] = cases
     ctx.correspond("context", cases, impl_ctx, op_iter, oracle_run, nontrivial=nontrivial,
                    rule="a source plugin emitting the chosen chunking + the overlap plugin in a storage-less Context; get_iter of every output; single_thread and threaded_mailbox (lazy and eager) alternate",
                    branch=lambda c, o: c["proc"] + ":" + ("multi" if c["multi"] else "single") + ":" + ("err" if o.startswith("err") else "ok"))
+
+    # 7b. the same at realistic absolute times: every time shifted by an epoch-scale offset (ns since 1970 ~ 1.7e18 >
+    #     2**53, low bits not a multiple of 256). The model is translation invariant (unbounded Int; Lean:
+    #     `runOverlap_shift`), the oracle is unchanged; arithmetic that leaves exact integers (float64 boundaries) shows.
+    def sample(xs, n):
+        xs = list(xs)
+        return xs if len(xs) <= n else rng.sample(xs, n)
+
+    ecases = []
+    for name, n in (("exhaustive", ctx.pick(1500, 12000)), ("single", ctx.pick(1500, 12000)), ("multi", ctx.pick(700, 6000)),
+                    ("batches", ctx.pick(300, 2500))):
+        for c in sample(pool[name], n):
+            ecases.append(shifted(c, EPOCH_T0 + rng.choice([137, 1, 255, 257, 2 ** 20 + 3, rng.randrange(1, 10 ** 9)])))
+    ecases.append(shifted(pool["single"][0], 2 ** 53 + 1))
+    ctx.correspond("iter/epoch", ecases, impl_iter, op_iter, oracle_run, nontrivial=nontrivial,
+                   rule="a sample of iter/exhaustive, iter/single, iter/multi, iter/batches with every chunk bound and row time shifted by 1.7e18 + an odd offset (ns-since-epoch scale, beyond 2**53): same ops to the driver, same oracle",
+                   branch=branch_of, in_hyp=lambda c, o: stream_ok(c["chunks"]))
+    ccases = [shifted(c, EPOCH_T0 + rng.choice([137, 255, rng.randrange(1, 10 ** 9)])) for c in sample(pool["context"], ctx.pick(250, 2000))]
+    ctx.correspond("context/epoch", ccases, impl_ctx, op_iter, oracle_run, nontrivial=nontrivial,
+                   rule="a sample of the `context` cases (both processors) shifted to epoch-scale times",
+                   branch=lambda c, o: c["proc"] + ":" + ("err" if o.startswith("err") else "ok"))
 
     # 8. corpus: hand-picked shapes that every run must see
     corpus = [
